@@ -8,7 +8,7 @@ import astwire
 import implobs
 from gens.programs import Opts, Gen
 
-THEOREMS = ['full_support_means_readable_partial']
+THEOREMS = ['full_support_means_readable_partial', 'full_support_means_effect_free_conditions']
 RULE = ('parseable functions built from every statement form x expression form at the edge of the supported list '
         '(bounded-exhaustive templates: labels, comma expressions, nested unary, casts at each position, assignments / '
         '++ / calls inside if, while, do-while, for conditions, constant operands, compound assignment, non-= '
